@@ -109,6 +109,78 @@ Theorem cardinality_correct : forall a, fine a -> small_card a ->
 Proof. exact cardinality_lemma. Qed.
 Print Assumptions cardinality_correct.
 
+Theorem bigunion_correct : forall a, fine a -> allowed False (spec_bigunion (norm a)) (ModulePrefixUnionSymbol a).
+Proof. exact bigunion_lemma. Qed.
+Print Assumptions bigunion_correct.
+Theorem dotdot_correct : forall a b, bounded a -> bounded b ->
+  allowed False (spec_dotdot (norm a) (norm b)) (ModuleDotDotSymbol a b).
+Proof. exact dotdot_lemma. Qed.
+Print Assumptions dotdot_correct.
+Theorem makeset_correct : forall l, (forall x, In x l -> fine x) -> allowed False (spec_makeset (map norm l)) (Ok (MakeSet l)).
+Proof. exact makeset_lemma. Qed.
+Print Assumptions makeset_correct.
+Theorem maketuple_correct : forall l, (forall x, In x l -> good x) -> allowed False (spec_maketuple (map norm l)) (Ok (MakeTuple l)).
+Proof. exact maketuple_lemma. Qed.
+Print Assumptions maketuple_correct.
+
+(* ---- = and #: correct on comparable kinds of plain values; the full statement is refuted by the
+   code as it is (known findings equality-of-incomparable-kinds, tuple-function-identity) ---- *)
+Theorem eq_partial : forall a b, fine a -> fine b -> comparable (norm a) (norm b) = true ->
+  allowed False (spec_eq (norm a) (norm b)) (ModuleEqualsSymbol a b).
+Proof. exact eq_partial_lemma. Qed.
+Print Assumptions eq_partial.
+Theorem neq_partial : forall a b, fine a -> fine b -> comparable (norm a) (norm b) = true ->
+  allowed False (spec_neq (norm a) (norm b)) (ModuleNotEqualsSymbol a b).
+Proof. exact neq_partial_lemma. Qed.
+Print Assumptions neq_partial.
+Theorem eq_full_refuted : ~ eq_full_statement.
+Proof. exact eq_full_refuted_lemma. Qed.
+Print Assumptions eq_full_refuted.
+Theorem eq_incomparable_refuted :
+  exists a b, fine a /\ fine b /\ spec_eq (norm a) (norm b) = SErr /\ ModuleEqualsSymbol a b = Ok (VBool false).
+Proof. exact eq_incomparable_refuted_lemma. Qed.
+Print Assumptions eq_incomparable_refuted.
+Theorem eq_tuple_function_refuted :
+  exists a b, good a /\ good b /\ spec_eq (norm a) (norm b) = SOk (VBool true) /\ ModuleEqualsSymbol a b = Ok (VBool false).
+Proof. exact eq_tuple_function_refuted_lemma. Qed.
+Print Assumptions eq_tuple_function_refuted.
+
+(* ---- sequences: a loud failure is tolerated only when the argument is a function representation
+   (the documented restriction); Len and \o on strings are refuted (known findings) ---- *)
+Theorem len_partial : forall a, (forall s, a <> VStr s) -> small_len a ->
+  allowed (is_funrep a) (spec_len (norm a)) (ModuleLen a).
+Proof. exact len_partial_lemma. Qed.
+Print Assumptions len_partial.
+Theorem len_string_refuted : ~ len_full_statement.
+Proof. exact len_string_refuted_lemma. Qed.
+Print Assumptions len_string_refuted.
+Theorem concat_partial : forall a b, good a -> good b -> ~ (exists s t, a = VStr s /\ b = VStr t) ->
+  allowed (is_funrep a \/ is_funrep b) (spec_concat (norm a) (norm b)) (ModuleOSymbol a b).
+Proof. exact concat_partial_lemma. Qed.
+Print Assumptions concat_partial.
+Theorem concat_string_refuted : ~ concat_full_statement.
+Proof. exact concat_string_refuted_lemma. Qed.
+Print Assumptions concat_string_refuted.
+Theorem head_correct : forall a, good a -> allowed (is_funrep a) (spec_head (norm a)) (ModuleHead a).
+Proof. exact head_lemma. Qed.
+Print Assumptions head_correct.
+Theorem tail_correct : forall a, good a -> allowed (is_funrep a) (spec_tail (norm a)) (ModuleTail a).
+Proof. exact tail_lemma. Qed.
+Print Assumptions tail_correct.
+Theorem append_correct : forall a x, good a -> good x -> allowed (is_funrep a) (spec_append (norm a) (norm x)) (ModuleAppend a x).
+Proof. exact append_lemma. Qed.
+Print Assumptions append_correct.
+Theorem subseq_correct : forall a m n, good a ->
+  allowed (is_funrep a) (spec_subseq (norm a) (norm m) (norm n)) (ModuleSubSeq a m n).
+Proof. exact subseq_lemma. Qed.
+Print Assumptions subseq_correct.
+
+(* ---- functions ---- *)
+Theorem colongt_correct : forall k v, good k -> good v ->
+  allowed False (spec_colongt (norm k) (norm v)) (ModuleColonGreaterThanSymbol k v).
+Proof. exact colongt_lemma. Qed.
+Print Assumptions colongt_correct.
+
 (* ---- non-vacuity: nested, ill-typed and boundary arguments ---- *)
 Definition ex_s1 : value := VSet [VTup [VNum 1; VStr [97%N]]; VSet [VNum 2; VNum 3]; VNum (-7)].
 Definition ex_s2 : value := VSet [VNum (-7); VSet [VNum 3; VNum 2]; VFun [(VStr [107%N], VNum 1)]].
@@ -134,4 +206,16 @@ Example c03_arith_nonvacuous :
   ModuleSuperscriptSymbol (VNum (-2)) (VNum 31) = Ok (VNum (-2147483648)) /\
   ModulePlusSymbol (VSet [VNum 1]) (VNum 1) = TypeErr /\
   LogicalAnd (VBool false) (VNum 42) = Ok (VBool false) /\ LogicalAnd (VBool true) (VNum 42) = TypeErr.
+Proof. vm_compute. repeat split. Qed.
+
+Example c03_seq_nonvacuous :
+  ModuleSubSeq (VTup [VNum 1; VSet [VNum 2]; VNum 3]) (VNum 2) (VNum 3) = Ok (VTup [VSet [VNum 2]; VNum 3]) /\
+  ModuleSubSeq (VTup [VNum 1]) (VNum 5) (VNum 4) = Ok (VTup []) /\
+  ModuleSubSeq (VTup [VNum 1]) (VNum 1) (VNum 4) = TypeErr /\
+  ModuleHead (VFun [(VNum 1, VNum 7)]) = TypeErr /\ spec_head (norm (VFun [(VNum 1, VNum 7)])) = SOk (VNum 7) /\
+  ModulePrefixUnionSymbol (VSet [VSet [VNum 1; VNum 2]; VSet [VNum 2; VNum 3]]) = Ok (VSet [VNum 1; VNum 2; VNum 3]) /\
+  ModulePrefixUnionSymbol (VSet [VSet [VNum 1]; VNum 2]) = TypeErr /\
+  ModuleDotDotSymbol (VNum 2147483646) (VNum 2147483647) = Ok (VSet [VNum 2147483646; VNum 2147483647]) /\
+  ModuleColonGreaterThanSymbol (VNum 1) (VNum 2) = Ok (VFun [(VNum 1, VNum 2)]) /\
+  spec_colongt (VNum 1) (VNum 2) = SOk (VTup [VNum 2]).
 Proof. vm_compute. repeat split. Qed.
